@@ -296,8 +296,10 @@ Proof.
     apply (t_remove_pase_tinv cap (tb s) keep). apply Hi.
   - (* OExAdd *)
     destruct (t_lookup id (tb s)) as [x|]; [|cbn; split; [auto|lia]].
-    destruct ((pending && s_reserved x) || s_expired x); [cbn; split; [auto|lia]|].
+    destruct (pending && s_reserved x); [cbn; split; [auto|lia]|].
     destruct (t_get id now (tb s)) as [t1|] eqn:Hg; [|cbn; split; [auto|lia]].
+    destruct (s_expired x).
+    { destruct (inv1_get _ _ _ _ _ Hi Hg) as [H1 H2]. cbn. split; auto. lia. }
     destruct (x_add mx (s_exch x) (if pending then XPending else XOwned)) as [[x' i]|].
     + destruct (inv1_get_upd _ _ _ _ _ (set_exch x') Hi Hg (keeps_set_exch x')) as [H1 H2].
       cbn. split; auto. lia.
